@@ -144,11 +144,22 @@ def budget_of(cfg):
     return None
 
 
+def user_domain(domain, alias=False):
+    """A fresh copy of the user's domain list.  alias=True writes it the way `[[lo, hi]] * d` does: every row is the SAME list
+    object (JSON cannot say that, hence the flag `alias_rows` in configs / tasks)."""
+    d = copy.deepcopy(domain)
+    if alias:
+        if any(r != d[0] for r in d):
+            raise HarnessError("alias_rows needs equal rows")
+        d = [d[0]] * len(d)
+    return d
+
+
 def build(cfg, learner_classes=None):
     """Construct the algorithm of `cfg` from fresh inputs.  Returns (algo, domain_obj).
     learner_classes: optional dict name -> class used instead of the base learner handed
     to POO/GPO (recording subclasses keeping __name__)."""
-    domain = copy.deepcopy(cfg["domain"])
+    domain = user_domain(cfg["domain"], cfg.get("alias_rows"))
     pc = part_class(cfg["part"], cfg.get("K"))
     name = cfg["algo"]
     p = dict(cfg["params"])
@@ -217,4 +228,59 @@ def all_algo_variants(budget=100):
     for b in TREE_BANDITS:
         out.append(("POO_" + b, "POO", dict(numax=1, rhomax=0.9, rounds=budget, base=b)))
         out.append(("GPO_" + b, "GPO", dict(numax=1.0, rhomax=0.9, rounds=budget, base=b)))
+    return out
+
+
+def bystander_of(c):
+    """Config of a second instance of the same class with other parameters on a moved and scaled box (same partition
+    class, same dimension): the instance that lives next to the object under check in the `bystander` task families."""
+    p = dict(c["params"])
+    a = c["algo"]
+
+    def alt(x, u=0.5, v=0.7):
+        return v if x == u else u
+
+    if a in ("T_HOO", "HCT", "VHCT", "Zooming"):
+        p["nu"] = 2 * p.get("nu", 1)
+        p["rho"] = alt(p.get("rho", 0.5))
+    if a == "T_HOO":
+        p["rounds"] = 3 * p.get("rounds", 100) + 1
+    if a in ("HCT", "VHCT"):
+        p["c"] = 3 * p.get("c", 0.1)
+        p["delta"] = 0.5 * p.get("delta", 0.01)
+    if a == "VHCT":
+        p["bound"] = 2 * p.get("bound", 1)
+    if a in WRAPPERS:
+        p["numax"] = 2 * p.get("numax", 1)
+        p["rhomax"] = alt(p.get("rhomax", 0.9), 0.9, 0.95)
+        p["rounds"] = p.get("rounds", 100) + 37
+    if a in ("DOO", "SOO", "SequOOL", "StroquOOL"):
+        p["n"] = p.get("n", 100) + 37
+    if a == "DOO":
+        p["delta"] = None if p.get("delta") else ["pow", 2.0, 0.6]
+    if a == "SOO":
+        p["h_max"] = p.get("h_max", 100) + 5
+    if a == "StoSOO":
+        p["n"] = 2 * p.get("n", 100) + 1
+        p["k"] = (p.get("k") or 2) + 1
+        p["delta"] = 1e-6
+    if a == "VROOM":
+        p["n"] = 2 * p.get("n", 100)
+        p["b"] = 2 * p.get("b", 1)
+        p["f_max"] = 3 * p.get("f_max", 1)
+        p["h_max"] = p.get("h_max", 100) + 1
+    dom = [[3.0 * lo - 5.0, 3.0 * hi - 5.0] for lo, hi in c["domain"]]
+    return {"algo": a, "params": p, "part": c["part"], "K": c.get("K"), "domain": dom}
+
+
+def shifted(c):
+    """The same config on a box that is neither zero-based nor of unit width (1-D: [-3,-1]; 2-D: [-2,6]x[0.25,0.5]; 3-D: u3)."""
+    out = copy.deepcopy(c)
+    out["domain"] = copy.deepcopy({1: BOXES["neg1"], 2: BOXES["mix2"], 3: BOXES["u3"]}[len(c["domain"])])
+    return out
+
+
+def with_bystander(c):
+    out = copy.deepcopy(c)
+    out["bystander"] = bystander_of(c)
     return out
